@@ -379,6 +379,11 @@ def eq_term(it, a, b, node=None):
     b = force(b)
     if any(type(x).__name__ == "AwVer" for x in (a, b)):
         raise Unsupported("== on a symbolic AwesomeVersion")
+    # a bytes-valued scalar field read from the heap is the same thing as a byte sequence value
+    if isinstance(a, SV) and a.kind == "bytes":
+        a = SeqVal("byte", a.term, "bytes")
+    if isinstance(b, SV) and b.kind == "bytes":
+        b = SeqVal("byte", b.term, "bytes")
     if a is b and not isinstance(a, SV):
         if not isinstance(a, float):
             return True
@@ -435,6 +440,8 @@ def eq_term(it, a, b, node=None):
             for x in a:
                 t = z3.Concat(t, z3.Unit(lift(x)[1]))
             return tb == t
+        if isinstance(a, SV) or isinstance(b, SV):
+            raise Unsupported(f"== between a sequence and a symbolic {a.kind if isinstance(a, SV) else b.kind}")
         return False
     if is_scalar(a) and is_scalar(b):
         if all_concrete([a, b]):
@@ -455,7 +462,8 @@ def eq_term(it, a, b, node=None):
     if all_concrete([a, b]):
         return a == b
     if type(a) is not type(b) and all_concrete([a]) != all_concrete([b]):
-        return False
+        if not any(type(x).__name__ in ("SymList", "LazyMap", "CompList", "DictView") for x in (a, b)):
+            return False
     raise Unsupported(f"== between {type(a).__name__} and {type(b).__name__}")
 
 
@@ -934,11 +942,13 @@ def setitem(it, obj, idx, v, node=None):
         obj.with_item(ti, lift(force(v))[1])
         return
     if isinstance(obj, dict):
+        it.guard_write(obj, node, key=idx, value=v)
         if isinstance(idx, SV):
             raise Unsupported("symbolic key stored into a concrete dict")
         obj[idx] = v
         return
     if isinstance(obj, list):
+        it.guard_write(obj, node)
         if isinstance(idx, SV):
             raise Unsupported("symbolic index stored into a concrete list")
         try:
@@ -961,6 +971,8 @@ def delitem(it, obj, idx, node=None):
             it.raise_(KeyError, "key", node=node)
         obj.set_dom(idx, False)
         return
+    if isinstance(obj, dict):
+        it.guard_write(obj, node)
     if isinstance(obj, dict) and all_concrete([idx]):
         try:
             del obj[idx]
@@ -1035,6 +1047,16 @@ def getattr_(it, obj, name, node=None):
     if isinstance(obj, ExcVal):
         if name == "args":
             return obj.args
+        if isinstance(obj.cls, type) and not hasattr(obj.cls, name):
+            # the class of the exception value is known: it has no such attribute
+            it.raise_(AttributeError, f"'{obj.cls.__name__}' object has no attribute '{name}'", node=node)
+        if isinstance(obj.cls, type) and all(isinstance(x, (str, int, float, bytes, type(None))) for x in obj.args):
+            try:
+                v = getattr(obj.cls(*obj.args), name)
+            except Exception:  # pylint: disable=broad-except
+                raise Unsupported(f"attribute {name} of an exception value") from None
+            if isinstance(v, (str, int, float, bytes, type(None))):
+                return v
         raise Unsupported(f"attribute {name} of an exception value")
     if isinstance(obj, (SV, SeqVal, SeqRef, MapRef, LazyMap, DictView)):
         raise Unsupported(f"attribute {name} on {obj!r}")
